@@ -24,6 +24,8 @@ def for_property(prop, tier):
         st.append(c17)
     if tier == "thorough" and prop in MIRI_PROPS:
         st.append(miri_stage)
+    if tier == "thorough" and prop in MIRI_SAMPLED_PROPS:
+        st.append(miri_sampled_stage)
     if tier == "thorough" and prop in ASAN_PROPS:
         st.append(asan_stage)
     if tier == "thorough" and prop == "C01":
@@ -32,7 +34,11 @@ def for_property(prop, tier):
 
 
 MIRI_PROPS = {"C04", "C10", "C11", "C19", "C20"}
-ASAN_PROPS = {"C04", "C10", "C11"}
+# properties whose monitors have no workload sized for an interpreter: a uniform sample of the
+# quick workload (stratified by sub-monitor) is drawn natively and replayed under Miri
+MIRI_SAMPLED_PROPS = {"C01", "C02", "C03", "C05", "C06", "C07", "C08", "C09", "C12", "C13", "C14", "C15", "C16", "C18"}
+MIRI_SAMPLE_TOTAL = 640
+ASAN_PROPS = {"C01", "C02", "C03", "C04", "C05", "C06", "C07", "C08", "C09", "C10", "C11", "C12", "C13", "C14", "C15", "C16", "C18", "C19", "C20"}
 NPROC = 16
 
 
@@ -99,6 +105,92 @@ def miri_stage(prop, tier, seed, env, say, verif, repo, target, bin, **kw):
             res["inconclusive"] = "Miri shard %d failed without a UB report: %s" % (i, se[-300:].replace("\n", " | "))
         if os.path.exists(trace):
             os.remove(trace)
+    res["info"]["wall_s"] = round(time.time() - t0, 1)
+    res["info"]["processes"] = NPROC
+    if res["info"].get("cases", 0) == 0 and not res["violations"] and not res["inconclusive"]:
+        res["inconclusive"] = "Miri observed no case"
+    return res
+
+
+def miri_sampled_stage(prop, tier, seed, env, say, verif, repo, target, bin, **kw):
+    """A uniform sample of the property's quick workload (drawn natively by the worker's
+    --dump-sample mode: nothing is executed, every generated case of at most 1500 argument bytes is
+    offered to one reservoir per sub-monitor) is replayed - library calls and oracles - under the
+    Miri interpreter in 16 single-threaded processes.  Reports undefined behaviour, leaks, and any
+    ordinary violation the oracles see on the sample."""
+    t0 = time.time()
+    res = {"name": "miri-sampled", "info": {}, "violations": [], "inconclusive": None}
+    sample = os.path.join(target, "miri-sample-%s.json" % prop)
+    if os.path.exists(sample):
+        os.remove(sample)
+    p = subprocess.run([bin, prop, "--tier", "quick", "--seed", str(seed), "--dump-sample", str(MIRI_SAMPLE_TOTAL), "--out", sample],
+                       cwd=verif, env=env, stdout=subprocess.PIPE, stderr=subprocess.PIPE, text=True)
+    if p.returncode != 0 or not os.path.exists(sample):
+        res["inconclusive"] = "sampling the workload failed (exit %s): %s" % (p.returncode, p.stderr[-200:].replace("\n", " | "))
+        return res
+    d = json.load(open(sample))
+    by_mon = {}
+    for c in d["cases"]:
+        by_mon.setdefault(c["mon"], []).append(c)
+    quota = max(1, -(-MIRI_SAMPLE_TOTAL // max(1, len(by_mon))))
+    cases = []
+    for k in range(quota):            # round-robin: every replay shard sees every sub-monitor
+        for mon in sorted(by_mon):
+            if k < len(by_mon[mon]):
+                cases.append(by_mon[mon][k])
+    json.dump({"cases": cases}, open(sample, "w"))
+    res["info"]["workload_generated"] = d.get("generated")
+    res["info"]["sampled_per_sub_monitor"] = {m: {"eligible": d["per_sub_monitor"].get(m, {}).get("eligible"), "replayed": min(quota, len(v))} for m, v in by_mon.items()}
+    if not cases:
+        res["inconclusive"] = "the sample is empty"
+        return res
+    menv = dict(env, CARGO_TARGET_DIR=os.path.join(target, "miri"), MIRIFLAGS="-Zmiri-disable-isolation")
+    harness = os.path.join(verif, "harness")
+    base = ["cargo", "+nightly", "miri", "run", "--offline", "--quiet", "--manifest-path", os.path.join(harness, "Cargo.toml"), "--"]
+    try:
+        w = subprocess.run(base + ["--version"], cwd=harness, env=menv, stdout=subprocess.PIPE, stderr=subprocess.PIPE, text=True, timeout=3600)
+    except subprocess.TimeoutExpired:
+        res["inconclusive"] = "building for Miri timed out"
+        return res
+    if w.returncode != 0:
+        res["inconclusive"] = "Miri build/tool failure: %s" % w.stderr[-300:].replace("\n", " | ")
+        return res
+    procs = []
+    for i in range(NPROC):
+        out = os.path.join(target, "miris-%s-%d.json" % (prop, i))
+        trace = os.path.join(target, "miris-%s-%d.trace" % (prop, i))
+        for f in (out, trace):
+            if os.path.exists(f):
+                os.remove(f)
+        cmd = base + [prop, "--tier", "tiny", "--seed", str(seed), "--threads", "1", "--shards", str(NPROC), "--only-shard", str(i), "--skip-self-test",
+                      "--replay-list", sample, "--out", out, "--trace", trace]
+        procs.append((i, out, trace, subprocess.Popen(cmd, cwd=harness, env=menv, stdout=subprocess.PIPE, stderr=subprocess.PIPE, text=True)))
+    for i, out, trace, p in procs:
+        try:
+            so, se = p.communicate(timeout=3 * 3600)
+        except subprocess.TimeoutExpired:
+            p.kill()
+            res["inconclusive"] = "a Miri shard timed out"
+            continue
+        if p.returncode == 0 and os.path.exists(out):
+            _merge_result(res, json.load(open(out)))
+            os.remove(out)
+        elif "Undefined Behavior" in se or "memory leaked" in se or "error: " in se and "unsupported operation" not in se:
+            case = None
+            try:
+                case = json.load(open(trace))
+            except Exception:
+                pass
+            first = [l for l in se.splitlines() if l.startswith("error")][:2]
+            where = [l.strip() for l in se.splitlines() if "-->" in l][:4]
+            res["violations"].append({"clause": "%s.miri" % prop, "features": {"instrumentation": "miri", "kind": "undefined-behaviour" if "Undefined Behavior" in se else "miri-error"},
+                                      "case": case or {"mon": "?", "a": [], "n": []}, "detail": "Miri reports: %s ; at %s" % (" / ".join(first), " <- ".join(where))})
+        else:
+            res["inconclusive"] = "Miri shard %d failed without a UB report: %s" % (i, se[-300:].replace("\n", " | "))
+        if os.path.exists(trace):
+            os.remove(trace)
+    if os.path.exists(sample):
+        os.remove(sample)
     res["info"]["wall_s"] = round(time.time() - t0, 1)
     res["info"]["processes"] = NPROC
     if res["info"].get("cases", 0) == 0 and not res["violations"] and not res["inconclusive"]:
